@@ -142,7 +142,7 @@ func Gen(t *rapid.T, cfg GenConfig) Prog {
 		p.Writers = append(p.Writers, rapid.IntRange(0, nw-1).Draw(t, "writer"))
 	}
 	for i := 0; i < n; i++ {
-		p.Clocks = append(p.Clocks, rapid.SampledFrom([]int{0, 0, 0, 0, 3, 1000, 1 << 40}).Draw(t, "clock0"))
+		p.Clocks = append(p.Clocks, rapid.SampledFrom([]int{0, 0, 0, 0, 0, 3, 1000, 1 << 40, 1<<53 - 1, 1 << 53, 1 << 60, 1_700_000_000_000_000_000}).Draw(t, "clock0"))
 	}
 	for i := 0; i < n; i++ {
 		p.Conc = append(p.Conc, rapid.SampledFrom([]int{0, 0, 1, 2, 3, 5}).Draw(t, "conc"))
@@ -207,7 +207,7 @@ func New(tb ev.TB, p *Prog) *World {
 		Prog:  p,
 		Store: fakeipfs.NewStore(),
 		Reg:   world.NewRegistry(),
-		Order: world.Ordering(p.Order % 2),
+		Order: world.Ordering(p.Order % 3),
 		Ctx:   context.Background(),
 	}
 	w.IO = world.IO(world.Codec(p.Codec), 0)
